@@ -83,6 +83,12 @@ def p_no_more_ckpt():
     return seq(m("open_run"), m("checkpoint"), m("null"), m("null"), m("null"), m("close_run"))
 
 
+def p_defer_msg_pos():
+    """the positional form of the message: Msg('pause', None, True)"""
+    return seq(m("open_run"), m("checkpoint"), m("null"), m("pause", None, [True], {}), m("null"), *BUNDLE,
+               m("checkpoint"), m("null"), m("close_run"))
+
+
 def p_defer_msg():
     return seq(m("open_run"), m("checkpoint"), m("null"), m("pause", None, [], {"defer": True}), m("null"), *BUNDLE,
                m("checkpoint"), m("null"), m("close_run"))
@@ -103,9 +109,11 @@ def c09_cases(rng, tier):
             if tier == "thorough" or (at + k) % 2 == 0:
                 out.append(base(plan, inject=[{"at": at, "req": "defer"}, {"at": at + 1, "req": "defer"}], script=["resume", "resume", "resume"],
                                 tag="c09 sp%d defer2@%d" % (k, at)))
-    for name, t in (("nockpt", p_no_more_ckpt), ("defermsg", p_defer_msg), ("inbundle", p_ckpt_in_bundle)):
+    for name, t in (("nockpt", p_no_more_ckpt), ("defermsg", p_defer_msg), ("defermsgpos", p_defer_msg_pos),
+                    ("inbundle", p_ckpt_in_bundle)):
         plan = t()
         n = count_msgs(plan) + 3
+        out.append(base(plan, script=["resume", "resume"], tag="c09 %s plain" % name))
         for at in range(1, n + 1):
             out.append(base(plan, inject=[{"at": at, "req": "defer"}], script=["resume", "resume"], tag="c09 %s defer@%d" % (name, at)))
             # a second call: the pending request is reported until it starts
